@@ -260,10 +260,11 @@ class Indentation(afmformats.AFMForceDistance):
         # accordingly, otherwise results would be shown for settings that
         # were never applied.
         fp = self.fit_properties
-        if ("preprocessing" in fp
-            and [fp["preprocessing"], fp.get("preprocessing_options", {})]
+        if (("preprocessing" in fp or "preprocessing_options" in fp)
+            and [fp.get("preprocessing", []),
+                 fp.get("preprocessing_options", {})]
                 != [self.preprocessing, self.preprocessing_options]):
-            preprocessing = fp.pop("preprocessing")
+            preprocessing = fp.pop("preprocessing", [])
             options = fp.pop("preprocessing_options", {})
             self.apply_preprocessing(preprocessing=preprocessing,
                                      options=options)
